@@ -38,7 +38,10 @@ TraceInit ==
 Ent(x) == [key |-> x[1], gen |-> x[2], complete |-> x[3] = 1, last |-> x[4]]
 LiveSet(ev) == {Ent(ev.live[i]) : i \in 1..Len(ev.live)}
 (* the driver logs mapper addresses 02:4B:00:00:hh:ll as the integer key hh*256+ll *)
-KeyMac(k) == IF k < 65536 THEN << 2, 75, 0, 0, k \div 256, k % 256 >> ELSE << k >>
+SpecialMacs == << << 255, 255, 255, 255, 255, 255 >>, << 0, 0, 0, 0, 0, 0 >>, << 1, 0, 94, 0, 0, 1 >>, << 3, 75, 0, 0, 0, 1 >>,
+                  << 51, 51, 0, 0, 0, 1 >>, << 2, 75, 1, 0, 0, 1 >>, << 2, 75, 0, 1, 0, 0 >>, << 254, 255, 255, 255, 255, 255 >> >>
+KeyMac(k) == IF k < 65536 THEN << 2, 75, 0, 0, k \div 256, k % 256 >>
+             ELSE IF k < 65536 + Len(SpecialMacs) THEN SpecialMacs[k - 65535] ELSE << k >>
 SeqTable(ev) == {[key |-> KeyMac(ev.live[i][1]), gen |-> ev.live[i][2], seq |-> ev.live[i][5]] : i \in 1..Len(ev.live)}
 
 (* C16 bookkeeping invariants on any logged table *)
